@@ -5,6 +5,9 @@ C04.b failure containment in greedy_from_json / search_optimal / greedy_standalo
 C04.c the final-stack post-condition and operand-position asserts dominate the success return
 C04.d operand order deviates from the specification only for commutative operations
 C04.e boolean record fields are read by value; swapped operands need the flag
+C04.f extremes over dependences are taken over all of them
+C04.g loads ordered after the last store are released only when no store is pending
+C04.h the memory/storage schedule respects every dependence
 """
 import ast
 
@@ -14,7 +17,7 @@ from ..core.loader import AnalysisError, short, own_nodes, norm, canon, function
 from ..core.report import where
 
 TECHNIQUE = 'interval analysis with guard refinement over a hand-built CFG; dominance rules for failure containment and post-condition asserts'
-LEVEL_TEXT = 'Decides that every SWAPk/DUPk the greedy module can emit is bounded to 1..16 by dominating guards (sites it cannot prove are listed as triaged-unproven and guarded against growth), that a failed search can never be reported as success, and that the run-time post-condition asserts dominate the success return. Does not decide that the asserts are sufficient for realization.'
+LEVEL_TEXT = 'Decides that every SWAPk/DUPk the greedy module can emit is bounded to 1..16 by dominating guards (sites it cannot prove are listed as triaged-unproven and guarded against growth), that a failed search can never be reported as success, and that the run-time post-condition asserts dominate the success return. Of "respects every declared ordering constraint" it decides the scheduler core: sort_with_deps is evaluated on every reduced dependence relation over up to two loads and three stores (C04.h), extremes over dependences are taken over all of them, deferred loads are released only when no store is pending, swapped operands need the commutative flag. Does not decide that the asserts are sufficient for realization in general.'
 
 EXPLANATION = ("Interval analysis with guard refinement of every expression that builds a SWAPk/DUPk mnemonic in "
                "greedy/block_generation.py (an assert counts as a guard because AssertionError is turned into "
@@ -22,8 +25,9 @@ EXPLANATION = ("Interval analysis with guard refinement of every expression that
                "statement that can raise, result used only under error==0) and for the run-time post-condition "
                "asserts (final stack equality dominates the return of SMSgreedy.compute; operand-position asserts "
                "dominate the emission of each operation).")
-NOT_DECIDED = ("'every store exactly once' and 'respects every dependency' (bookkeeping over run-time DAGs); the "
-               "asserts are checked to be present and dominating, not to be sufficient")
+NOT_DECIDED = ("'every store exactly once' and 'respects every dependency' beyond the relation family of C04.h and outside sort_with_deps "
+               "(merge of the memory and storage orders, interleaving with the stack computation); the asserts are checked to be present "
+               "and dominating, not to be sufficient")
 ASSUMPTIONS = ["AssertionError raised inside SMSgreedy methods propagates to greedy_from_json's handler "
                "(no intermediate handler swallows it: checked)"]
 
